@@ -2,32 +2,39 @@
 (* Exhaustive configuration for C30: the traversal is modelled the way the   *)
 (* code performs it - decode, then one clone_tx_at step per index which      *)
 (* looks its parts up by position / key - and compared with the declarative  *)
-(* Txs(b) for every block with <= MaxTx transactions, any invalid subset     *)
-(* (including an out-of-range index), any sparse aux map, every wrapper tag. *)
+(* Txs(b) for every block with <= MaxTx transactions, any invalid list       *)
+(* (unsorted, repeated, out-of-range indices), any sparse aux map in several *)
+(* wire orders, every wrapper tag.                                           *)
 EXTENDS BlockTraverse, TLC
 
-CONSTANT MaxTx
+CONSTANTS MaxTx, MaxInv
 
 Ids(n) == [k \in 1..n |-> k]
-AuxSeq(keys) == SetToSortSeq({<<k, k + 1>> : k \in keys}, LAMBDA p, q : p[1] < q[1])
+SeqsUpTo(S, n) == UNION {[1..k -> S] : k \in 0..n}
+Rotate(s) == IF s = <<>> THEN s ELSE Tail(s) \o <<s[1]>>
+\* the aux entries of a key set in ascending, descending and rotated wire order
+AuxOrders(keys) == LET asc == SetToSortSeq({<<k, k + 1>> : k \in keys}, LAMBDA p, q : p[1] < q[1])
+                   IN {asc, Reverse(asc), Rotate(asc)}
 
+\* every block with n <= MaxTx transactions; aux keys and invalid indices range over
+\* 0..n (n itself is out of range); the invalid list is any sequence of length <= MaxInv
+\* (unsorted, with repetitions); tags below 5 have no invalid list
 Blocks ==
-    { [tag |-> t, bodies |-> Ids(n), wits |-> Ids(n), aux |-> AuxSeq(ks), invalid |-> inv] :
-        t \in 2..7, n \in 0..MaxTx, ks \in SUBSET (0..MaxTx), inv \in (SUBSET (0..MaxTx)) \cup {NoField} }
-Fits(b) == /\ (b.tag < 5 <=> b.invalid = NoField)
-           /\ \A p \in Range(b.aux) : p[1] <= Count(b)           \* at most one key out of range
-           /\ b.invalid # NoField => \A i \in b.invalid : i <= Count(b)
+    UNION { { [tag |-> t, bodies |-> Ids(n), wits |-> Ids(n), aux |-> a, has_invalid |-> t >= 5, invalid |-> inv] :
+                a \in UNION {AuxOrders(ks) : ks \in SUBSET (0..n)},
+                inv \in (IF t >= 5 THEN SeqsUpTo(0..n, MaxInv) ELSE {<<>>}) } :
+            t \in 2..7, n \in 0..MaxTx }
 
 VARIABLES blk, cur, out, phase
 vars == <<blk, cur, out, phase>>
 
-Init == blk \in {b \in Blocks : Fits(b)} /\ cur = 0 /\ out = <<>> /\ phase = "decoded"
+Init == blk \in Blocks /\ cur = 0 /\ out = <<>> /\ phase = "decoded"
 
 \* support.rs clone_tx_at: body and witness set by position, success from the
 \* invalid list, aux by scanning the map for the key
 CloneTxAt ==
     /\ phase = "decoded" /\ cur < Len(blk.bodies)
-    /\ LET success == ~(blk.invalid # NoField /\ cur \in blk.invalid)
+    /\ LET success == ~(blk.has_invalid /\ \E k \in 1..Len(blk.invalid) : blk.invalid[k] = cur)   \* Vec::contains
            found == SelectSeq(blk.aux, LAMBDA p : p[1] = cur)
            a == IF found = <<>> THEN NoAux ELSE found[1][2]
        IN out' = Append(out, [body |-> blk.bodies[cur + 1], wits |-> blk.wits[cur + 1], aux |-> a, valid |-> success])
@@ -48,7 +55,7 @@ EachPartOnce == phase = "done" =>
     /\ {out[k].aux : k \in 1..Len(out)} \ {NoAux} = {p[2] : p \in {q \in Range(blk.aux) : q[1] < Count(blk)}}
 InvalidExactly == phase = "done" =>
     {k - 1 : k \in {j \in 1..Len(out) : ~out[j].valid}} =
-        (IF blk.invalid = NoField THEN {} ELSE blk.invalid \cap (0..(Count(blk) - 1)))
+        (IF blk.has_invalid THEN Range(blk.invalid) \cap (0..(Count(blk) - 1)) ELSE {})
 EraTable == /\ \A t \in 2..7 : \A u \in 2..7 : t # u => EraOfTag(t) # EraOfTag(u)
             /\ EraOfTag(0) = "Byron" /\ EraOfTag(1) = "Byron"
 ASSUME EraTable
